@@ -766,6 +766,8 @@ pub type Unit = OwnedLockCollection<CL>;
 pub type CN = Cont<Node>;
 /// owned data over arena leaves: a container of `&mut` leaves
 pub type CML = Cont<&'static mut Leaf>;
+/// owned collection over `&mut` arena leaves
+pub type RUnit = OwnedLockCollection<CML>;
 
 /// drop-counting tag (C16): counts how often the value it is attached to is dropped
 #[derive(Debug)]
@@ -857,6 +859,9 @@ pub enum Node {
     DRetry(Box<RetryingLockCollection<&'static CML>>),
     PDBoxed(Box<Poisonable<BoxedLockCollection<&'static CML>>>),
     PDRetry(Box<Poisonable<RetryingLockCollection<&'static CML>>>),
+    RUnit(&'static RUnit),
+    /// a bare nested container (no collection around it)
+    Group(Box<CN>),
 }
 
 pub enum NodeAcc<'g, F: Fam> {
@@ -900,6 +905,8 @@ unsafe impl Lockable for Node {
             Node::DRetry(c) => c.get_ptrs(ptrs),
             Node::PDBoxed(c) => c.get_ptrs(ptrs),
             Node::PDRetry(c) => c.get_ptrs(ptrs),
+            Node::RUnit(u) => u.get_ptrs(ptrs),
+            Node::Group(c) => c.get_ptrs(ptrs),
         }
     }
     unsafe fn guard(&self) -> Self::Guard<'_> {
@@ -925,6 +932,8 @@ unsafe impl Lockable for Node {
             Node::DRetry(c) => NodeAcc::Unit(c.guard()),
             Node::PDBoxed(c) => NodeAcc::PUnit(Box::new(c.guard())),
             Node::PDRetry(c) => NodeAcc::PUnit(Box::new(c.guard())),
+            Node::RUnit(u) => NodeAcc::Unit(u.guard()),
+            Node::Group(c) => NodeAcc::Coll(Box::new(c.guard())),
         }
     }
     unsafe fn data_mut(&self) -> Self::DataMut<'_> {
@@ -950,6 +959,8 @@ unsafe impl Lockable for Node {
             Node::DRetry(c) => NodeAcc::Unit(c.data_mut()),
             Node::PDBoxed(c) => NodeAcc::PUnit(Box::new(c.data_mut())),
             Node::PDRetry(c) => NodeAcc::PUnit(Box::new(c.data_mut())),
+            Node::RUnit(u) => NodeAcc::Unit(u.data_mut()),
+            Node::Group(c) => NodeAcc::Coll(Box::new(c.data_mut())),
         }
     }
 }
@@ -987,6 +998,8 @@ unsafe impl Sharable for Node {
             Node::DRetry(c) => NodeAcc::Unit(c.read_guard()),
             Node::PDBoxed(c) => NodeAcc::PUnit(Box::new(c.read_guard())),
             Node::PDRetry(c) => NodeAcc::PUnit(Box::new(c.read_guard())),
+            Node::RUnit(u) => NodeAcc::Unit(u.read_guard()),
+            Node::Group(c) => NodeAcc::Coll(Box::new(c.read_guard())),
         }
     }
     unsafe fn data_ref(&self) -> Self::DataRef<'_> {
@@ -1012,6 +1025,8 @@ unsafe impl Sharable for Node {
             Node::DRetry(c) => NodeAcc::Unit(c.data_ref()),
             Node::PDBoxed(c) => NodeAcc::PUnit(Box::new(c.data_ref())),
             Node::PDRetry(c) => NodeAcc::PUnit(Box::new(c.data_ref())),
+            Node::RUnit(u) => NodeAcc::Unit(u.data_ref()),
+            Node::Group(c) => NodeAcc::Coll(Box::new(c.data_ref())),
         }
     }
 }
